@@ -57,19 +57,30 @@ package statf
 //@   let k11 = decStrK(src, q10, 10, false, d0)
 //@   let q11 = (k11 == 0 ? decStrP(src, q10, 10, d0) : seekP(src, q10, 10, d0))
 //@   let ok11 = ok10 && (k11 == 0 || (k11 == 1 && (seekK(src, q10, 10, d0) == 2 || (seekK(src, q10, 10, d0) == 1 && seekCanon(src, q10, 10, d0)))))
-//@   opaque [C04] *
+//@   opaque [C04,C06] *
 //@   perreturn
 //@   ensures [C04] (ok1 && err == nil) ==> st.MasterName == (k1 == 0 ? decStrV(src, q0, 0, d0) : old(st.MasterName))
+//@   ensures [C06] (k1 == 2) ==> err != nil
 //@   ensures [C04] (ok2 && err == nil) ==> st.SlaveName == (k2 == 0 ? decStrV(src, q1, 1, d0) : old(st.SlaveName))
+//@   ensures [C06] (ok1 && k2 == 2) ==> err != nil
 //@   ensures [C04] (ok3 && err == nil) ==> st.InterfaceName == (k3 == 0 ? decStrV(src, q2, 2, d0) : old(st.InterfaceName))
+//@   ensures [C06] (ok2 && k3 == 2) ==> err != nil
 //@   ensures [C04] (ok4 && err == nil) ==> st.MasterIp == (k4 == 0 ? decStrV(src, q3, 3, d0) : old(st.MasterIp))
+//@   ensures [C06] (ok3 && k4 == 2) ==> err != nil
 //@   ensures [C04] (ok5 && err == nil) ==> st.SlaveIp == (k5 == 0 ? decStrV(src, q4, 4, d0) : old(st.SlaveIp))
+//@   ensures [C06] (ok4 && k5 == 2) ==> err != nil
 //@   ensures [C04] (ok6 && err == nil) ==> st.SlavePort == (k6 == 0 ? decIntV(src, q5, 5, d0) : old(st.SlavePort))
+//@   ensures [C06] (ok5 && k6 == 2) ==> err != nil
 //@   ensures [C04] (ok7 && err == nil) ==> st.ReturnValue == (k7 == 0 ? decIntV(src, q6, 6, d0) : old(st.ReturnValue))
+//@   ensures [C06] (ok6 && k7 == 2) ==> err != nil
 //@   ensures [C04] (ok8 && err == nil) ==> st.SlaveSetName == (k8 == 0 ? decStrV(src, q7, 7, d0) : old(st.SlaveSetName))
+//@   ensures [C06] (ok7 && k8 == 2) ==> err != nil
 //@   ensures [C04] (ok9 && err == nil) ==> st.SlaveSetArea == (k9 == 0 ? decStrV(src, q8, 8, d0) : old(st.SlaveSetArea))
+//@   ensures [C06] (ok8 && k9 == 2) ==> err != nil
 //@   ensures [C04] (ok10 && err == nil) ==> st.SlaveSetID == (k10 == 0 ? decStrV(src, q9, 9, d0) : old(st.SlaveSetID))
+//@   ensures [C06] (ok9 && k10 == 2) ==> err != nil
 //@   ensures [C04] (ok11 && err == nil) ==> st.TarsVersion == (k11 == 0 ? decStrV(src, q10, 10, d0) : old(st.TarsVersion))
+//@   ensures [C06] (ok10 && k11 == 2) ==> err != nil
 //@   ensures [C04] ok11 ==> (err == nil && readBuf.buf.i == q11)
 //@   safety [C05]
 //
@@ -102,6 +113,27 @@ package statf
 //@   perreturn
 //@   modifies buf.buf.bytes
 //@   ensures [C03] err == nil && buf.buf.bytes == pre
+//@   safety [C03]
+//
+//@ func (*StatMicMsgHead).WriteBlock
+//@   requires st != nil && validB(buf) && len(st.MasterName) < 4294967296 && len(st.SlaveName) < 4294967296 && len(st.InterfaceName) < 4294967296 && len(st.MasterIp) < 4294967296 && len(st.SlaveIp) < 4294967296 && len(st.SlaveSetName) < 4294967296 && len(st.SlaveSetArea) < 4294967296 && len(st.SlaveSetID) < 4294967296 && len(st.TarsVersion) < 4294967296
+//@   let e0 = buf.buf.bytes ++ head(StructBegin, tag)
+//@   let e1 = e0 ++ encString(0, st.MasterName)
+//@   let e2 = e1 ++ encString(1, st.SlaveName)
+//@   let e3 = e2 ++ encString(2, st.InterfaceName)
+//@   let e4 = e3 ++ encString(3, st.MasterIp)
+//@   let e5 = e4 ++ encString(4, st.SlaveIp)
+//@   let e6 = e5 ++ encInt32(5, st.SlavePort)
+//@   let e7 = e6 ++ encInt32(6, st.ReturnValue)
+//@   let e8 = (st.SlaveSetName != "" ? e7 ++ encString(7, st.SlaveSetName) : e7)
+//@   let e9 = (st.SlaveSetArea != "" ? e8 ++ encString(8, st.SlaveSetArea) : e8)
+//@   let e10 = (st.SlaveSetID != "" ? e9 ++ encString(9, st.SlaveSetID) : e9)
+//@   let e11 = (st.TarsVersion != "" ? e10 ++ encString(10, st.TarsVersion) : e10)
+//@   let pre = e11 ++ head(StructEnd, 0)
+//@   opaque head encInt8 encInt16 encInt32 encInt64 encString encBool
+//@   perreturn
+//@   modifies buf.buf.bytes
+//@   ensures [C03] result == nil && buf.buf.bytes == pre
 //@   safety [C03]
 //
 //@ func (*StatMicMsgBody).ResetDefault
@@ -173,17 +205,26 @@ package statf
 //@   let k9 = decIntK(src, q8, 8, true, 4, d0)
 //@   let q9 = (k9 == 0 ? decIntP(src, q8, 8, d0) : seekP(src, q8, 8, d0))
 //@   let ok9 = ok8 && (k9 == 0 || (k9 == 1 && (seekK(src, q8, 8, d0) == 2 || (seekK(src, q8, 8, d0) == 1 && seekCanon(src, q8, 8, d0)))))
-//@   opaque [C04] *
+//@   opaque [C04,C06] *
 //@   perreturn
 //@   ensures [C04] (ok1 && err == nil) ==> st.Unid == (k1 == 0 ? decStrV(src, q0, 0, d0) : old(st.Unid))
+//@   ensures [C06] (k1 == 2) ==> err != nil
 //@   ensures [C04] (ok2 && err == nil) ==> st.MasterName == (k2 == 0 ? decStrV(src, q1, 1, d0) : old(st.MasterName))
+//@   ensures [C06] (ok1 && k2 == 2) ==> err != nil
 //@   ensures [C04] (ok3 && err == nil) ==> st.SlaveName == (k3 == 0 ? decStrV(src, q2, 2, d0) : old(st.SlaveName))
+//@   ensures [C06] (ok2 && k3 == 2) ==> err != nil
 //@   ensures [C04] (ok4 && err == nil) ==> st.InterfaceName == (k4 == 0 ? decStrV(src, q3, 3, d0) : old(st.InterfaceName))
+//@   ensures [C06] (ok3 && k4 == 2) ==> err != nil
 //@   ensures [C04] (ok5 && err == nil) ==> st.MasterIp == (k5 == 0 ? decStrV(src, q4, 4, d0) : old(st.MasterIp))
+//@   ensures [C06] (ok4 && k5 == 2) ==> err != nil
 //@   ensures [C04] (ok6 && err == nil) ==> st.SlaveIp == (k6 == 0 ? decStrV(src, q5, 5, d0) : old(st.SlaveIp))
+//@   ensures [C06] (ok5 && k6 == 2) ==> err != nil
 //@   ensures [C04] (ok7 && err == nil) ==> st.Depth == (k7 == 0 ? decIntV(src, q6, 6, d0) : old(st.Depth))
+//@   ensures [C06] (ok6 && k7 == 2) ==> err != nil
 //@   ensures [C04] (ok8 && err == nil) ==> st.Width == (k8 == 0 ? decIntV(src, q7, 7, d0) : old(st.Width))
+//@   ensures [C06] (ok7 && k8 == 2) ==> err != nil
 //@   ensures [C04] (ok9 && err == nil) ==> st.ParentWidth == (k9 == 0 ? decIntV(src, q8, 8, d0) : old(st.ParentWidth))
+//@   ensures [C06] (ok8 && k9 == 2) ==> err != nil
 //@   ensures [C04] ok9 ==> (err == nil && readBuf.buf.i == q9)
 //@   safety [C05]
 //
@@ -216,6 +257,25 @@ package statf
 //@   ensures [C03] err == nil && buf.buf.bytes == pre
 //@   safety [C03]
 //
+//@ func (*StatSampleMsg).WriteBlock
+//@   requires st != nil && validB(buf) && len(st.Unid) < 4294967296 && len(st.MasterName) < 4294967296 && len(st.SlaveName) < 4294967296 && len(st.InterfaceName) < 4294967296 && len(st.MasterIp) < 4294967296 && len(st.SlaveIp) < 4294967296
+//@   let e0 = buf.buf.bytes ++ head(StructBegin, tag)
+//@   let e1 = e0 ++ encString(0, st.Unid)
+//@   let e2 = e1 ++ encString(1, st.MasterName)
+//@   let e3 = e2 ++ encString(2, st.SlaveName)
+//@   let e4 = e3 ++ encString(3, st.InterfaceName)
+//@   let e5 = e4 ++ encString(4, st.MasterIp)
+//@   let e6 = e5 ++ encString(5, st.SlaveIp)
+//@   let e7 = e6 ++ encInt32(6, st.Depth)
+//@   let e8 = e7 ++ encInt32(7, st.Width)
+//@   let e9 = e8 ++ encInt32(8, st.ParentWidth)
+//@   let pre = e9 ++ head(StructEnd, 0)
+//@   opaque head encInt8 encInt16 encInt32 encInt64 encString encBool
+//@   perreturn
+//@   modifies buf.buf.bytes
+//@   ensures [C03] result == nil && buf.buf.bytes == pre
+//@   safety [C03]
+//
 //@ func (*ProxyInfo).ResetDefault
 //@   requires st != nil
 //@   pure
@@ -235,9 +295,10 @@ package statf
 //@   let k1 = decIntK(src, q0, 0, true, 1, d0)
 //@   let q1 = (k1 == 0 ? decIntP(src, q0, 0, d0) : seekP(src, q0, 0, d0))
 //@   let ok1 = (k1 == 0 || (k1 == 1 && (seekK(src, q0, 0, d0) == 2 || (seekK(src, q0, 0, d0) == 1 && seekCanon(src, q0, 0, d0)))))
-//@   opaque [C04] *
+//@   opaque [C04,C06] *
 //@   perreturn
 //@   ensures [C04] (ok1 && err == nil) ==> st.BFromClient == (k1 == 0 ? (decIntV(src, q0, 0, d0) != 0) : old(st.BFromClient))
+//@   ensures [C06] (k1 == 2) ==> err != nil
 //@   ensures [C04] ok1 ==> (err == nil && readBuf.buf.i == q1)
 //@   safety [C05]
 //
@@ -260,4 +321,15 @@ package statf
 //@   perreturn
 //@   modifies buf.buf.bytes
 //@   ensures [C03] err == nil && buf.buf.bytes == pre
+//@   safety [C03]
+//
+//@ func (*ProxyInfo).WriteBlock
+//@   requires st != nil && validB(buf)
+//@   let e0 = buf.buf.bytes ++ head(StructBegin, tag)
+//@   let e1 = e0 ++ encBool(0, st.BFromClient)
+//@   let pre = e1 ++ head(StructEnd, 0)
+//@   opaque head encInt8 encInt16 encInt32 encInt64 encString encBool
+//@   perreturn
+//@   modifies buf.buf.bytes
+//@   ensures [C03] result == nil && buf.buf.bytes == pre
 //@   safety [C03]
